@@ -94,4 +94,22 @@ def encodeAgent (uid agent : Bytes) : Bytes := join uid agent
 /-- same shape as `decodePerson`, different error value (still the only one) -/
 def decodeAgent (c : Bytes) : Option (Bytes × Bytes) := decodePerson c
 
+/-! helpers the regenerated definitions (`WK.Gen.C35`, extract/c35.go) are written with -/
+
+/-- `strings.Split(s, string(c))` for an arbitrary one-byte separator -/
+def splitByAux (c : UInt8) : Bytes → Bytes × List Bytes
+  | [] => ([], [])
+  | x :: xs =>
+    let p := splitByAux c xs
+    if x = c then ([], p.1 :: p.2) else (x :: p.1, p.2)
+
+def splitBy (c : UInt8) (s : Bytes) : List Bytes := (splitByAux c s).1 :: (splitByAux c s).2
+
+/-- `strings.TrimSuffix(s, suffix)` -/
+def goTrimSuffix (s suffix : Bytes) : Bytes :=
+  if suffix.isSuffixOf s then s.take (s.length - suffix.length) else s
+
+/-- Go's `a > b` on strings -/
+def bytesGt (a b : Bytes) : Bool := bytesLt b a
+
 end WK.C35
